@@ -110,6 +110,7 @@ func genC07(tier string, seed uint64) *simkit.Plan {
 	// settings that have nothing to do with trust must not change who is served
 	p.SetKnob("tracing", int64(r.Intn(2)))
 	p.SetKnob("cfgpath", int64(r.Intn(2)))
+	p.SetKnob("cfg_resave", int64(r.Pick(2, 2, 1))) // 1: saved and read again, 2: "nobody" as a section without the key
 	n := r.Range(1, 4)
 	for i := 0; i < n; i++ {
 		p.AddStep(Step{Op: "walk", N: r.Intn(1 << 30)})
@@ -226,9 +227,29 @@ func execC07(plan *simkit.Plan, run *simkit.Run) {
 		cfg := &crdt.Config{}
 		switch plan.Knob("cfgpath", 0) {
 		case 0:
-			js, _ := json.Marshal(map[string]interface{}{"cluster_name": "c07", "trusted_peers": listed})
+			section := map[string]interface{}{"cluster_name": "c07", "trusted_peers": listed}
+			if len(listed) == 0 && plan.Knob("cfg_resave", 0) == 2 {
+				// "nobody" written the short way: a section without the key (whenever a
+				// section is parsed, trust-all is off unless '*' is listed)
+				delete(section, "trusted_peers")
+				run.Probe("trust_config_without_the_key")
+			}
+			js, _ := json.Marshal(section)
 			if err := cfg.LoadJSON(js); err != nil {
 				panic(err)
+			}
+			if plan.Knob("cfg_resave", 0) == 1 {
+				// the file was written back and read again (init, follower set-ups and
+				// every save of service.json do): trust is what it was
+				js2, err := cfg.ToJSON()
+				if err != nil {
+					panic(err)
+				}
+				cfg = &crdt.Config{}
+				if err := cfg.LoadJSON(js2); err != nil {
+					panic(err)
+				}
+				run.Probe("trust_config_saved_and_reloaded")
 			}
 			run.Probe("trust_config_from_json")
 		default:
